@@ -23,9 +23,9 @@ GARBAGE = ('nan', 'huge', 'stale', 'inf', 'denormal', 'zero')
 SHIPPED = (100, 50000)
 
 TIERS = {
-    'C01': {'quick': {'runs': 16000, 'budget_s': 80, 'chunk': 80},
+    'C01': {'quick': {'runs': 40000, 'budget_s': 100, 'chunk': 100},
             'thorough': {'runs': 800000, 'budget_s': 1800, 'chunk': 400}},
-    'C17': {'quick': {'runs': 12000, 'budget_s': 80, 'chunk': 80},
+    'C17': {'quick': {'runs': 60000, 'budget_s': 100, 'chunk': 200},
             'thorough': {'runs': 600000, 'budget_s': 1800, 'chunk': 400}},
 }
 
